@@ -21,6 +21,9 @@ KeyValuePairs = Union[Dict[Any, Any], Sequence[Tuple[Any, Any]]]
 def _iterate_dict_like(iterable: KeyValuePairs) -> List[Tuple[Any, Any]]:
     if isinstance(iterable, Mapping):
         return list(iterable.items())
+    if hasattr(iterable, "keys"):
+        # what dict.update() accepts as a mapping: anything with keys() and __getitem__
+        return [(key, iterable[key]) for key in iterable.keys()]  # type: ignore
     return list(iterable)
 
 
